@@ -135,10 +135,27 @@ struct ExecResult {
     stats: Stats,
 }
 
+/// A script line as it goes on the wire. Three private-use characters stand for single bytes that make the line
+/// invalid UTF-8 (scenario files stay plain JSON strings): U+E0FF -> ff, U+E0C3 -> c3 (a lead byte with nothing after
+/// it), U+E080 -> 80 (a lone continuation byte). Such a line is malformed, nothing more: the lines after it still count.
+fn wire(l: &str) -> Vec<u8> {
+    let mut out = Vec::with_capacity(l.len());
+    let mut buf = [0u8; 4];
+    for c in l.chars() {
+        match c {
+            '\u{e0ff}' => out.push(0xff),
+            '\u{e0c3}' => out.push(0xc3),
+            '\u{e080}' => out.push(0x80),
+            c => out.extend_from_slice(c.encode_utf8(&mut buf).as_bytes()),
+        }
+    }
+    out
+}
+
 fn stream_bytes(scn: &Scn) -> Vec<u8> {
     let mut bytes = Vec::new();
     for l in &scn.lines {
-        bytes.extend_from_slice(l.as_bytes());
+        bytes.extend_from_slice(&wire(l));
         bytes.push(b'\n');
     }
     if let Ending::HalfClose { after_bytes } = scn.ending {
@@ -276,7 +293,7 @@ fn body(scn: &Scn, g: &Guest, slot: &Arc<Mutex<Option<ExecResult>>>) {
             }
         }
         if start < sent.len() {
-            frag = std::str::from_utf8(&sent[start..]).ok().map(|s| s.to_string());
+            frag = Some(String::from_utf8_lossy(&sent[start..]).to_string());
         }
     }
     // model states after every prefix of the complete lines (+ optionally the fragment)
@@ -565,7 +582,9 @@ impl Property for C18N {
         let n = rng.range(1, if tier == Tier::Quick { 10 } else { 24 }) as usize;
         let mut lines = Vec::new();
         let mut seq = 0u8;
-        let malformed = ["cmd:stop:1", "cmd", "cmd:pause:x", "u8:zz:1", "u8:fffe20", "", "foo:1:2", "ioport:1", "cmd:halt", "u8:fffe20:100", "\u{3042}\u{3042}:\u{e9}", "cmd:stop\r", "cmd:pause\r", "u8:fffe20:7f\r", "\r"];
+        let malformed = ["cmd:stop:1", "cmd", "cmd:pause:x", "u8:zz:1", "u8:fffe20", "", "foo:1:2", "ioport:1", "cmd:halt", "u8:fffe20:100", "\u{3042}\u{3042}:\u{e9}", "cmd:stop\r", "cmd:pause\r", "u8:fffe20:7f\r", "\r",
+            // not UTF-8 on the wire (see `wire`)
+            "\u{e0ff}", "u8:fffe20:7\u{e0ff}", "cmd:stop\u{e080}", "x\u{e0c3}", "\u{e0c3}\u{e0c3}:1:2", "u8:\u{e080}fffe20:7e", "cmd\u{e0ff}:pause"];
         let mut started = !wait_start;
         for _ in 0..n {
             match rng.below(10) {
@@ -610,7 +629,7 @@ impl Property for C18N {
                 lines.push("cmd:start".into());
             }
         }
-        let total: usize = lines.iter().map(|l| l.len() + 1).sum();
+        let total: usize = lines.iter().map(|l| wire(l).len() + 1).sum();
         let ending = match ending {
             Ending::HalfClose { .. } => Ending::HalfClose { after_bytes: if rng.chance(1, 10) { 0 } else { rng.range(1, total as u64) as usize } },
             e => e,
@@ -706,6 +725,9 @@ impl Property for C18N {
             bump(stats, "shuttle_executions");
         }
         bump(stats, &format!("event.chunking_{}", if scn.chunks.len() <= 1 { "whole_script" } else if scn.chunks.iter().all(|c| *c <= 7) { "tiny" } else { "random" }));
+        if scn.lines.iter().rev().skip(1).any(|l| l.contains(['\u{e0ff}', '\u{e0c3}', '\u{e080}'])) {
+            bump(stats, "event.line_not_utf8_with_lines_after_it");
+        }
         if scn.short_io {
             bump(stats, "event.short_reads_and_writes");
         }
